@@ -200,9 +200,9 @@ SIMD = [("skinny128-ctr-vec128", "skinny128", "skinny128_ctr_vec128", 16, 4, "v1
         ("mantis-ctr-vec128", "mantis", "mantis_ctr_vec128", 8, 8, "vm.", ["-msse2"], "mantis_ecb_encrypt_eight", "mantis_ctr_increment", "skinny64_xor", "ctrm")]
 for (fn, fam, P, B, LANES, c, fl, EFN, INC, XB, R) in SIMD:
     HS = "h_%s.c" % fn.replace("-", "_")
-    J(c + "init", ["C15", "C16", "C05", "C06", "C11"], HS, "h_init", enforce=P + "_init", cflags=fl, replace=["skinny_calloc"],
+    J(c + "init", ["C15", "C16", "C05", "C06", "C11"], HS, "h_init", enforce=P + "_init", cflags=fl + ["-mavx2"], cbmc=MF, replace=[INC, "skinny_cleanse"],
       must_have=PC, replay=R + "_life," + R,
-      note="allocator wrapper replaced by its contract (may fail); success: base pointer kept, offset = batch, lanes hold counters 0..%d" % (LANES - 1))
+      note="real skinny_calloc inlined, calloc may fail; success: base pointer kept, offset = batch, lanes hold counters 0..%d" % (LANES - 1))
     J(c + "cleanup", ["C15", "C17"], HS, "h_cleanup", enforce=P + "_cleanup", cflags=fl, replace=["skinny_cleanse"],
       must_have=PC + ["C17 erasure"], replay=R + "_life",
       note="base pointer read before the wipe, whole context wiped, base freed exactly once (layout: aligned pointer == block base)")
@@ -227,6 +227,17 @@ for (fn, fam, P, B, LANES, c, fl, EFN, INC, XB, R) in SIMD:
         J(c + "set_tweaked_key", ["C10", "C14", "C06"], HS, "h_set_tweaked_key", enforce=P + "_set_tweaked_key", cflags=fl,
           replace=[fam + "_set_tweaked_key"], must_have=PC, replay=R + "_life")
         J(c + "set_tweak", ["C14", "C06", "C04"], HS, "h_set_tweak", enforce=P + "_set_tweak", cflags=fl, replace=[fam + "_set_tweak"], must_have=PC, replay=R + "_life")
+
+# ------------------------------------------------------------------ vector block functions, layer A (witness lane)
+for (fn, fl, pre, R) in (("skinny128-parallel-vec128", ["-msse2"], "pv128a.", "par128"), ("skinny128-parallel-vec256", ["-mavx2"], "pv128b.", "par128"),
+                         ("skinny64-parallel-vec128", ["-msse2"], "pv64.", "par64")):
+    HV = "h_%s.c" % fn.replace("-", "_")
+    base = "_" + fn.replace("-parallel-", "_parallel_%s_")
+    for d, dd in (("enc", "encrypt"), ("dec", "decrypt")):
+        J(pre + dd, ["C07", "C03", "C06", "C09", "C11"], HV, "h_" + d, enforce=base % dd, cflags=fl, must_have=LC + PC, replay=R, timeout=2400,
+          note="arbitrary witness lane in lock-step with the spec round / inverse round (vector >> rewritten lane-wise, 2.2a); all inputs loaded before the first store (in-place allowed)")
+J("pvm.crypt", ["C07", "C03", "C06", "C09", "C11"], "h_mantis_parallel_vec128.c", "h_crypt", enforce="_mantis_parallel_crypt_vec128", cflags=["-msse2"],
+  must_have=LC + PC, replay="parm", timeout=2400, note="witness lane L processed under tweak L, both loops in lock-step with the MANTIS steps")
 
 
 def by_id(i):
